@@ -1,5 +1,6 @@
 import TsVerif.Common.IO
 import TsVerif.C13.Judge
+import TsVerif.C13.Stream
 /-!
 Driver for C13 (and, for the `L`/`D` lines, C09).  Protocol: see harness/csrc/cunit_c13.c
 (function level, answers must equal the C program's) and harness/src/bin/c13.rs (system level):
@@ -99,6 +100,21 @@ structure St where
   treeE : Array String := #[]
   mode : Nat := 0
 
+/-- `rangedChars` (what `stream_concat` talks about) against the full port over the same ranges with the
+document in one chunk, modulo the BOM that `start` skips at offset 0. -/
+def rangedAgrees (doc : Array Nat) (rs : List TSRange) : Bool :=
+  let docL := doc.toList
+  let read : Read := fun p => docL.drop p
+  let fuel := doc.size + 2
+  let l : Lexer := {}
+  let l := (l.setIncludedRanges rs).1.setInput
+  let port := TsVerif.C09.lexChars read fuel (l.start read)
+  let core0 : List (Nat × Int × Nat) := rangedChars docL fuel rs ((rs.head?.map (·.start_byte)).getD 0)
+  let core : List (Nat × Int × Nat) := match core0 with
+    | (0, cp, _) :: rest => if cp == 0xFEFF then rest else core0
+    | _ => core0
+  core == port
+
 def fmtR (rs : List TSRange) : String :=
   ",".intercalate (rs.map fun r => s!"{r.start_byte}-{r.end_byte}")
 
@@ -121,6 +137,11 @@ def runCase (s : St) : String :=
     let myConcat := es.foldl (fun acc e => acc ++ (s.doc.extract e.a e.b).toList) []
     let concatOk := if decide (myConcat = s.concat) then "ok" else "FAIL harness concatenation differs from the model's"
     let onB := onCharBoundaries es docL
+    -- hypotheses / conclusion of `stream_concat` on this case, and the model-internal tie of `rangedChars` to the port
+    let fuelS := s.doc.size + 2
+    let fit := fitRunB docL fuelS given ((given.head?.map (·.start_byte)).getD 0)
+    let rc := rangedAgrees s.doc given
+    let sc := !fit || decide ((rangedChars docL fuelS given ((given.head?.map (·.start_byte)).getD 0)).map (fun x => (x.2.1, x.2.2)) = refCharsS fuelS s.concat)
     let myEff := effectiveText given s.doc
     let effOk := !s.hasE || decide (myEff = s.eff)
     match parseDump s.treeR.toList, parseDump s.treeC.toList with
@@ -151,7 +172,7 @@ def runCase (s : St) : String :=
         else if st.fail.isNone then "empty-range-boundary"
         else if err then "error-recovery"
         else "other"
-      s!"{s.id} setter={setter} reported={reported} concat={concatOk} shape={shape} pos={pos} cause={cause} accepted=1 err={if err then 1 else 0} nranges={n} neff={es.length} onb={if onB then 1 else 0} effok={if effOk then 1 else 0} nodes={st.nodes} leaves={st.leaves} gapleaves={st.gapLeaves} quirks={st.quirks} col={if col then 1 else 0}"
+      s!"{s.id} setter={setter} reported={reported} concat={concatOk} shape={shape} pos={pos} cause={cause} accepted=1 err={if err then 1 else 0} nranges={n} neff={es.length} onb={if onB then 1 else 0} effok={if effOk then 1 else 0} nodes={st.nodes} leaves={st.leaves} gapleaves={st.gapLeaves} quirks={st.quirks} col={if col then 1 else 0} fit={if fit then 1 else 0} rc={if rc then "ok" else "bad"} sc={if sc then "ok" else "bad"}"
     | _, _ => s!"{s.id} setter={setter} reported={reported} concat={concatOk} shape=BADINPUT pos=BADINPUT cause=other accepted=1"
 
 def step (s : St) (line : String) : IO St := do
